@@ -317,6 +317,9 @@ def e2e_sanity(ctx):
     cases = [dict(id=m, mask=m, bare=False) for m in range(512)]
     cases += [dict(id=1000 + m, mask=m, bare=True) for m in range(0, 512, step_bare)]
     cases += [dict(id=2000 + m, mask=m, bare=False, ignorecase=True) for m in range(0, 512, step_cfg)]
+    # identities that are not valid UTF-8 (reflog files with a Latin-1 byte), non-bare and bare
+    cases += [dict(id=3000 + m, mask=m, bare=False, latin1=True) for m in range(0, 512, step_bare)]
+    cases += [dict(id=4000 + m, mask=m, bare=True, latin1=True) for m in range(0, 512, step_cfg)]
     results = e2e.run_pool(e2e.sanity_case, cases)
     dist, mine = {}, []
     for r in results:
@@ -328,7 +331,7 @@ def e2e_sanity(ctx):
         for (p, msg) in r['failures']:
             mine.append((r['id'], msg))
     ctx.parts.append(dict(name='e2e(sanity)', evaluations=len(cases), distinct_nontrivial=dist.get('refused', 0),
-                          rule='exhaustive: every subset of the nine documented freshness violations (unstaged, staged, untracked, stash, extra reflog entries, extra worktree, extra remote, unpushed branch, loose object) applied to a fresh non-bare clone (2^9 = 512 states), a sample of the subsets on a fresh bare clone and with core.ignorecase/precomposeunicode set; the repository facts are gathered independently with plumbing, the Lean model of the pre-flight predicts accept/refuse and which error, and the real CLI (without --force) is compared with it; a refused run must leave refs, HEAD, status, config, remotes, objects, work tree and every file under .git outside filter-repo/ unchanged; --force is checked to bypass. Non-trivial: the run is refused.',
+                          rule='exhaustive: every subset of the nine documented freshness violations (unstaged, staged, untracked, stash, extra reflog entries, extra worktree, extra remote, unpushed branch, loose object) applied to a fresh non-bare clone (2^9 = 512 states), a sample of the subsets on a fresh bare clone (where a linked worktree, reflog entries, an extra remote and loose objects still apply), with core.ignorecase/precomposeunicode set, and with a committer name that is not valid UTF-8 (Latin-1 bytes in the reflog files); the repository facts are gathered independently with plumbing, the Lean model of the pre-flight predicts accept/refuse and which error, and the real CLI (without --force) is compared with it; a refused run must leave refs, HEAD, status, config, remotes, objects, work tree and every file under .git outside filter-repo/ unchanged; --force is checked to bypass. Non-trivial: the run is refused.',
                           samples=[{'mask': cases[5]['mask'], 'violations': [v for i, v in enumerate(e2e.VIOLATIONS) if cases[5]['mask'] >> i & 1]}],
                           distribution=dist, wall_s=round(time.time() - t0, 1), exhaustive=True, impl_property_failures_for_this_property=len(mine)))
     for cid, msg in mine[:3]:
@@ -405,6 +408,49 @@ def _replay_sweep(ctx, doc, path):
     r = e2e.sweep_case(doc['case'])
     print(json.dumps(r, indent=1)[:2000])
     if r['failures']:
+        print(f'VIOLATION property={ctx.pid} replay={path}')
+        return 1
+    return 0
+
+
+@runner
+def e2e_fault(ctx):
+    """C10: faults injected into the real pipeline through the git shim"""
+    from . import e2e
+    with C.BuildLock():
+        ok, out = C.cli_build()
+    if not ok:
+        raise C.Infra('the CLI of /repo does not build')
+    t0 = time.time()
+    n = 2400 if ctx.tier == 'thorough' else 150
+    cases = [dict(id=i, seed=ctx.seed) for i in range(n)]
+    results = e2e.run_pool(e2e.fault_case, cases)
+    dist, mine = {}, []
+    for r, c in zip(results, cases):
+        for k, v in r['dist'].items():
+            dist[k] = dist.get(k, 0) + v
+        if r.get('error'):
+            dist['harness-errors'] = dist.get('harness-errors', 0) + 1
+            ctx.notes.append(f"e2e(fault) harness error: {r['error'][:200]}")
+        for (p, msg) in r['failures']:
+            if p == ctx.pid:
+                mine.append((c, msg))
+    ctx.parts.append(dict(name='e2e(fault injection)', evaluations=len(cases), distinct_nontrivial=dist.get('faulted-runs', 0),
+                          rule='seeded: repositories of 40/150/400 commits on three branches with blobs of 30/600/3000 bytes, a second branch name on an exported commit (exported as reset/from), a lightweight and an annotated tag; every second case after an earlier successful run (its commit-map and ref-map are lying around, which enables the per-commit get-mark round trip); the real CLI with one of six option sets under a git shim that (a) ends the importer\'s input after K bytes, (b) injects a bogus command into the importer\'s input after K bytes and keeps sending, (c) ends the exporter\'s output after K bytes with exit status 1, 0 or 141; K uniform over the stream plus the boundaries 0, 1, 13, 64 KiB ± 1, end − 6; all other children paced by the shim. The run must exit non-zero and for-each-ref and HEAD must be as before. Non-trivial: the fault was delivered.',
+                          samples=[dict(id=0, modes=['cutimport', 'poisonimport', 'cutexport'])],
+                          distribution=dist, wall_s=round(time.time() - t0, 1), exhaustive=False, impl_property_failures_for_this_property=len(mine)))
+    for c, msg in mine[:3]:
+        path = C.write_replay(ctx.pid, 'oracle-failure', dict(runner='e2e_fault', case=c, property_failure=msg))
+        ctx.violations.append((path, False, msg[:300]))
+
+
+def _replay_fault(ctx, doc, path):
+    from . import e2e
+    with C.BuildLock():
+        C.cli_build()
+    r = e2e.fault_case(doc['case'])
+    print(json.dumps(r, indent=1)[:2000])
+    if any(p == ctx.pid for p, _ in r['failures']):
         print(f'VIOLATION property={ctx.pid} replay={path}')
         return 1
     return 0
@@ -550,4 +596,4 @@ def replay(ctx, path):
     return check(ctx, time.time())
 
 
-REPLAYERS = {'stream': _replay_stream, 'e2e': _replay_e2e, 'e2e_sanity': _replay_sanity, 'e2e_sweep': _replay_sweep}
+REPLAYERS = {'stream': _replay_stream, 'e2e': _replay_e2e, 'e2e_sanity': _replay_sanity, 'e2e_sweep': _replay_sweep, 'e2e_fault': _replay_fault}
